@@ -219,7 +219,8 @@ def m2(ck: Check) -> None:
         probs = []
         loops = [n for n in own_walk(fm.f.node) if isinstance(n, ast.For)]
         ys = [n for n in own_walk(fm.f.node) if isinstance(n, ast.Yield)]
-        if len(loops) != 1 or text(loops[0].iter) not in ("range(len(self))", "range(self.dag.number_of_nodes())"):
+        all_ids = ("range(len(self))", "range(self.dag.number_of_nodes())") + (("self.node_ids()",) if name != "node_ids" else ())
+        if len(loops) != 1 or text(loops[0].iter) not in all_ids:
             probs.append("does not range over range(len(self))")
         elif len(ys) != 1 or fm.key(ys[0].value, fm.cfgn(ys[0])) != text(loops[0].target):
             probs.append("does not yield the loop index")
@@ -273,6 +274,9 @@ def m3(ck: Check) -> None:
     probs = []
     if len(keycalls) != 1 or text(keycalls[0].args[0]) != q or text(keycalls[0].args[1]) != "self.network":
         probs.append("the key is not space_unique_key(query, self.network)")
+    elif any(d.kind != "entry" for d in fm.cfg.reaching_defs(q, fm.cfgn(keycalls[0]))):
+        probs.append(f"the query `{q}` is re-bound before the key is computed: the node that is returned need not have the "
+                     f"space that was asked for (find_node is exact: equal space or nothing)")
     ck.ob("M3", fm, f.node, not probs, "; ".join(probs) if probs else "lookup key computed from the query against the diagram's network",
           key="find_node key")
     import types
@@ -427,6 +431,19 @@ def m4(ck: Check) -> None:
             else:
                 edge_rets.append((r, pc))
     probs = []
+    # a verdict before the node loop: only "more nodes than the other diagram" decides the question on its own
+    for r in own_walk(f.node):
+        if isinstance(r, ast.Return) and is_false(r.value) and fm.cfgn(r).id not in fm.cfg.loop_nodes[lp]:
+            pc0 = fm.pc(fm.cfgn(r))
+            sound = logic.Lt(f"len({other})", "len(self)")
+            try:
+                ok0 = bool(logic.atoms(pc0)) and logic.implies(pc0, sound)
+            except logic.TooBig:
+                ok0 = False
+            if not ok0:
+                probs.append(f"line {r.lineno}: `return False` outside the node-by-node comparison under `{logic.show(pc0)[:80]}`: only "
+                             f"len(self) > len(other) rules a subgraph out without looking at the nodes (counts of expanded nodes, edges "
+                             f"or attractors say nothing: a stub of self may face an expanded node of other)")
     if not node_rets:
         probs.append("no `return False` when a node's space is missing from the other diagram")
     else:
@@ -468,9 +485,23 @@ def m4(ck: Check) -> None:
                                 quant = (q, b, r)
     if quant is not None:
         (pos, it2, var2, cond2), b, r = quant
-        tn = fm.cfg.nodes[next(iter(fm.cfg.g.predecessors(b.id)))]
+        tn = tn_key = fm.cfg.nodes[next(iter(fm.cfg.g.predecessors(b.id)))]
         d = fm.single_def(it2.id, tn) if isinstance(it2, ast.Name) else None
         srcx = d[1] if d else it2
+        if isinstance(srcx, (ast.SetComp, ast.ListComp, ast.GeneratorExp)) and len(srcx.generators) == 1 \
+                and not srcx.generators[0].ifs and isinstance(srcx.generators[0].target, ast.Name):
+            # quantifying over the images {F(s) for s in S} is quantifying over S with F(s) in the condition
+            import copy as _copy
+
+            class _Sub(ast.NodeTransformer):
+                def visit_Name(self, n_):
+                    return _copy.deepcopy(srcx.elt) if n_.id == var2 else n_
+            cond2 = _Sub().visit(_copy.deepcopy(cond2))
+            var2 = srcx.generators[0].target.id
+            it2 = srcx.generators[0].iter
+            tn_key = d[0] if d is not None else tn
+            d = fm.single_def(it2.id, tn_key) if isinstance(it2, ast.Name) else None
+            srcx = d[1] if d else it2
         if not (isinstance(srcx, ast.Call) and callee_name(srcx) == "node_successors" and text(srcx.func.value) == "self"
                 and text(srcx.args[0]) == i):
             probs.append("the successor test does not range over self.node_successors(node)")
@@ -482,7 +513,7 @@ def m4(ck: Check) -> None:
             cond2 = ast.Compare(cond2.operand.left, [ast.NotIn()], cond2.operand.comparators)    # not (a in b) == a not in b
         okc = isinstance(cond2, ast.Compare) and len(cond2.ops) == 1 and isinstance(cond2.ops[0], ast.NotIn) \
             and isinstance(cond2.left, ast.Call) and callee_name(cond2.left) == "find_node" and text(cond2.left.func.value) == other \
-            and fm.key(logic._rename(cond2.left.args[0], var2, "_q"), tn) == "FIELD<self|_q|space>"
+            and fm.key(logic._rename(cond2.left.args[0], var2, "_q"), tn_key) == "FIELD<self|_q|space>"
         if not okc:
             probs.append("a successor whose image is not a successor in the other diagram does not make the result False")
         pc = fm.pc(tn)
